@@ -90,8 +90,8 @@ theorem query_tri (m : Mode) (p : Prov) (hcs : 4 ≤ p.cs) (hb : ∀ a, p.rd a <
 /-- **`eeprom_queries_total`: every image, both build modes.** For every memory content (any bytes), chunk
     size ≥ 4, build mode and query: the query terminates (never runs out of fuel — the category walk's word
     address grows by at least 2 per step through a checked addition), makes at most `bound` provider calls, and
-    returns a value, "absent" or an error; the only panics left are the `u16` overflow sites listed in
-    `sites m` (none in wrapping builds) — no index, slice, unwrap or capacity panic exists. -/
+    returns a value, "absent" or an error; a panic would have to be at one of the sites listed in `sites m`,
+    and that list is empty in both build modes (`eeprom_queries_never_panic`). -/
 theorem eeprom_queries_total (m : Mode) (p : Prov) (hcs : 4 ≤ p.cs) (hb : ∀ a, p.rd a < 256) (q : Query) :
     (q.run m p).1 ≠ .err .fuel ∧
     (q.run m p).2 ≤ q.bound catBound ∧
@@ -99,12 +99,12 @@ theorem eeprom_queries_total (m : Mode) (p : Prov) (hcs : 4 ≤ p.cs) (hb : ∀ 
   have h := query_tri m p hcs hb (catOK_all m p hcs) q
   ⟨h.nofuel rfl, h.cost, h.panics⟩
 
-/-- Wrapping builds never panic. -/
-theorem eeprom_queries_never_panic_wrapping (p : Prov) (hcs : 4 ≤ p.cs) (hb : ∀ a, p.rd a < 256) (q : Query) :
-    ∀ w, (q.run .wrapping p).1 ≠ .panic w := by
+/-- **No query can panic, in either build mode**: the list of overflow sites is empty. -/
+theorem eeprom_queries_never_panic (m : Mode) (p : Prov) (hcs : 4 ≤ p.cs) (hb : ∀ a, p.rd a < 256) (q : Query) :
+    ∀ w, (q.run m p).1 ≠ .panic w := by
   intro w hw
-  have := (eeprom_queries_total .wrapping p hcs hb q).2.2 w hw
-  simp [sites] at this
+  have := (eeprom_queries_total m p hcs hb q).2.2 w hw
+  cases m <;> simp [sites, knownSites] at this
 
 /-- **Access bound**, explicit: a category search makes at most 32 737 provider calls in every build (the
     word address grows by at least 2 per call from 0x40), hence every query with string capacity and index up
@@ -188,10 +188,13 @@ def imgBigCat (lo hi : Nat) (a : Nat) : Nat :=
   if a = 128 then 30 else if a = 130 then lo else if a = 131 then hi else 0
 
 set_option maxRecDepth 100000 in
-/-- `EepromRange::new(word_addr, len_words)`: `len_words * 2` and `start * 2 + len * 2` overflow. -/
-theorem found_category_overflow_counterexample :
-    (general .checked ⟨imgBigCat 0 0x80, 4⟩).1 = .panic "new:mul" ∧
-    (general .checked ⟨imgBigCat 0xc0 0x7f, 4⟩).1 = .panic "new:add" := by decide
+/-- FIXED (was `found_category_overflow_counterexample`: `EepromRange::new` computed `len_words * 2` and
+    `start * 2 + len * 2` in `u16`: panics `new:mul` / `new:add`): the cursor is a `u32`, the category is found
+    with its full extent and the 18 General bytes are read, in both build modes. -/
+theorem found_category_overflow_fixed :
+    (Eeprom.category .checked ⟨imgBigCat 0 0x80, 4⟩ 30).1 = .ok (some ⟨132, 65668⟩) ∧
+    (Eeprom.category .wrapping ⟨imgBigCat 0xc0 0x7f, 4⟩ 30).1 = .ok (some ⟨132, 65540⟩) ∧
+    (general .checked ⟨imgBigCat 0 0x80, 4⟩).2 = 7 := by decide
 
 /-- Strings category (6 words) at word 0x7FF0 (byte 0xFFE0), holding 5 strings, the first 255 bytes long. -/
 def imgSkip (a : Nat) : Nat :=
@@ -200,9 +203,11 @@ def imgSkip (a : Nat) : Nat :=
   else if a = 0xffe0 then 5 else if a = 0xffe1 then 255 else 0
 
 set_option maxRecDepth 100000 in
-/-- `skip_ahead_bytes`: `self.byte_pos + skip` overflows for a string table near the top of the byte space. -/
-theorem skip_overflow_counterexample :
-    (findString .checked ⟨imgSkip, 4⟩ 16 2).1 = .panic "skip_ahead_bytes:add" := by decide
+/-- FIXED (was `skip_overflow_counterexample`: `self.byte_pos + skip` in `u16` panicked): skipping 255 bytes
+    from byte 65506 leaves the 12-byte category, which is `Err(SectionOverrun)` in both build modes. -/
+theorem skip_overflow_fixed :
+    (findString .checked ⟨imgSkip, 4⟩ 16 2).1 = .err .overrun ∧
+    (findString .wrapping ⟨imgSkip, 4⟩ 16 2).1 = .err .overrun := by decide
 
 /-- Empty Strings category whose header is at word 0x7FFD: the range is `[65534, 65534)`. -/
 def imgReadByte (a : Nat) : Nat :=
@@ -210,9 +215,13 @@ def imgReadByte (a : Nat) : Nat :=
   else if a = 0xfffa then 10 else if a = 0xfffe then 5 else 0
 
 set_option maxRecDepth 100000 in
-/-- `read_byte` never compares with `end`: it reads past an empty category and `byte_pos += 1` overflows. -/
-theorem read_byte_overflow_counterexample :
-    (findString .checked ⟨imgReadByte, 4⟩ 16 2).1 = .panic "read_byte:add" := by decide
+/-- FIXED (was `read_byte_overflow_counterexample`: `read_byte` never compared with `end`, read past an empty
+    category and overflowed `byte_pos += 1` at byte 65535): reading a byte at the end of the range is
+    `Err(SectionOverrun)`, without any provider call. -/
+theorem read_byte_overflow_fixed :
+    (findString .checked ⟨imgReadByte, 4⟩ 16 2).1 = .err .overrun ∧
+    (findString .wrapping ⟨imgReadByte, 4⟩ 16 2).1 = .err .overrun ∧
+    (Range.readByte .checked ⟨imgReadByte, 4⟩ ⟨65534, 65534⟩) = (.err .overrun, 0) := by decide
 
 /-- 128 header bytes, then a first category of type 2 (not searched for) with length word 0xFFFE. -/
 def imgWrapToSelf (a : Nat) : Nat := if a = 128 then 2 else if a = 130 then 254 else if a = 131 then 255 else 0
